@@ -364,6 +364,15 @@ impl<'c> Runner<'c> {
 			let _ = format!("{:?}", self.built.colls[c]);
 		}));
 		vraw::set_bomb(None);
+		// a formatting error surfaces as a panic of `format!` itself (user-level panic)
+		// (unless what unwinds is a raw-lock fault raised while the transient hold was released)
+		if vraw::take_err_fired() {
+			if let Err(e) = &r {
+				if !e.is::<vraw::FaultPanic>() && !is_stop(&**e) {
+					mark(7);
+				}
+			}
+		}
 		mark(4);
 		if let Err(e) = r {
 			std::panic::resume_unwind(e)
